@@ -284,6 +284,15 @@ def run_spans(ck):
         diag = sorted({QUIRKS[q] for (i, q) in tot["R"] if i == worst["id"]})
         ck.violation({"property": PID, "kind": "model/implementation disagree; the property's oracle still accepts the observations",
                       "case": worst, "diagnosis": diag, "broken": "correspondence Spans.decode / Spans.read_row vs the Go code"}, no_input=True)
+    # one OutputQuery over all rows of a request returns as many spans as the rows decoded one by one
+    short = [c for c in cases if not c["err"] and c.get("read_all", -1) >= 0 and c["read_all"] != sum(1 for r in c["read"] if r.get("ok"))
+             and all(r.get("ok") for r in c["read"])]
+    ck.obligation("a trace of N decodable stored spans is read back as N spans by one OutputQuery call", not short,
+                  "case ids: %s" % [c["id"] for c in short[:10]])
+    if short:
+        w = min(short, key=size_of)
+        ck.violation({"property": PID, "kind": "OutputQuery over all rows of the request returned %d spans for %d rows" % (w["read_all"], len(w["read"])),
+                      "case": w, "replay": "harness spans --cases <file holding the 'case' object on one line> --out /dev/stdout"})
     kf = ck.known_findings()
     if known:
         fid = "zipkin-short-parent-id"
